@@ -13,7 +13,8 @@ for _p in ['C01', 'C06', 'C10', 'C11', 'C17']:
 TEXT = {
     'C09': {
         'text': 'Proof. Every function of fp/ops.rs that field arithmetic is built from carries a machine-checked contract against integers mod p '
-                '(add/sub/neg/modp, single-word Montgomery mul for FP32/FP64: r<p and r*R == x*y mod p for ALL operands), discharged by Verus on the '
+                '(add/sub/neg/modp for all three word sizes; single-word Montgomery mul for FP32/FP64 and split-word mul for FP128: r<p and r*R == x*y mod p for ALL operands; '
+                'pow (square-and-multiply loop invariant), inv, montgomery, residue against the residue-class view val(a) = a*R^-1 mod p: pow(x,e) denotes val(x)^e, residue(montgomery(x)) = x mod p), discharged by Verus on the '
                 'function text extracted from /repo on every run; the field layer (byte conversions, representation invariant) is discharged full-domain by Kani '
                 'on the real crate with mul replaced by its contract.  All carry/borrow paths are covered by the SMT proof, which random tests reach with probability 2^-32..2^-64.',
         'note': 'Trusted: std overflowing_add/sub semantics (assume_specification), From<bool>; Field255 limb arithmetic (fiat-crypto) is not verified; primality of the moduli is assumed where "inverse" is claimed. Extraction rewrites are listed per function in evidence/extract/.',
@@ -47,9 +48,9 @@ TEXT = {
         'design_ref': 'DESIGN.md §4 C16',
     },
     'C05': {
-        'text': 'Partial: length exactness only. Verus proves, for all parameters, that the declared proof/verifier/randomness lengths of Histogram, SumVec, MultihotCountVec and Sum equal what prove/query construct (arity + gadget_poly_len(degree, wire_poly_len(calls)), 1 + sum(arity+1), sum of arities), using the real helper functions of flp.rs.',
-        'note': 'Completeness, soundness, share-linearity and root-of-unity refusal are polynomial-identity statements over NTT/Lagrange code: not decided by this family here (DESIGN.md §4 C05/C10).',
-        'technique': 'postconditions on extracted length accessors against spec functions (Verus)',
+        'text': 'Partial: length exactness and refusals. Verus proves, for all parameters, that the declared proof/verifier/randomness lengths of Histogram, SumVec, MultihotCountVec and Sum equal what prove/query construct (arity + gadget_poly_len(degree, wire_poly_len(calls)), 1 + sum(arity+1), sum of arities), using the real helper functions of flp.rs. Kani proves on the real provided methods Flp::query/decide, instantiated with a harness-defined circuit, that query refuses any randomness r with r^wire_poly_len(calls) == 1 before a gadget polynomial is evaluated (gadget call counts 1,2,3,4,8; every r), that wrong lengths are refused before the guard, and the decision rule of decide().',
+        'note': 'Completeness, soundness and share-linearity are polynomial-identity statements over NTT/Lagrange code: not decided by this family here (DESIGN.md §4 C05/C10). Field multiplication is seen through its contract (memoised stub), so a CBMC model of a refusal failure is replayed through the executable oracle replay/flp_oracle.rs on the shipped circuits.',
+        'technique': 'postconditions on extracted length accessors against spec functions (Verus) + guard contracts on the real generic provided methods over a harness-defined circuit (Kani)',
         'design_ref': 'DESIGN.md §4 C05',
     },
     'C18': {
@@ -65,15 +66,15 @@ TEXT = {
         'design_ref': 'DESIGN.md §4 C02',
     },
     'C19': {
-        'text': 'Partial: Prio2 parameter and packing arithmetic. Verus proves Prio2::new (exact acceptance domain, no overflow), proof_length and the single-use rule; FieldPrio2 arithmetic is covered by C09.',
-        'note': 'Acceptance/rejection of vectors (soundness), query-point exclusion and codecs are not decided.',
+        'text': 'Partial: Prio2 parameter and packing arithmetic and the query-point exclusion. Verus proves Prio2::new (exact acceptance domain, no overflow), proof_length, the single-use rule, and that choose_eval_at never returns one of the 2N interpolation nodes (r^(2*next_pow2(input_len+1)) != 1 for every PRNG output stream) over the proved FP32::pow contract and the make_field! bodies of FieldPrio2::{pow,one,eq}; FieldPrio2 arithmetic is covered by C09.',
+        'note': 'Acceptance of 0/1 vectors and rejection of others (soundness) and the codecs are not decided. Termination of the rejection loop in choose_eval_at is probabilistic and not proved.',
         'technique': 'function contracts on extracted real code (Verus)',
         'design_ref': 'DESIGN.md §4 C19',
     },
     'C20': {
-        'text': 'Partial: the single-use rule of Prio3 and Prio2 is proved for all histories (Verus).',
-        'note': 'The Poplar1 rule and prefix-list validation operate on bitvec values and are not decided by this family here.',
-        'technique': 'function contracts on extracted real code (Verus)',
+        'text': 'Partial: the single-use rule of Prio3 and Prio2 is proved for all histories (Verus); for Poplar1, Kani proves on the real is_agg_param_valid that a non-empty history admits a parameter only if its level is strictly greater than the MOST RECENT one (every u16 level, histories of up to 3 parameters with empty candidate sets: bounded) and that an empty history admits everything.',
+        'note': 'The prefix-extension clause of the Poplar1 rule and prefix-list validation compare bitvec values and are not decided by this family here.',
+        'technique': 'function contracts on extracted real code (Verus) + contract harness on the real function (Kani)',
         'design_ref': 'DESIGN.md §4 C20',
     },
     'C12': {
